@@ -23,6 +23,9 @@ mod s_c13;
 mod s_c14;
 mod s_c15;
 mod s_c16;
+mod s_c17;
+mod s_c18;
+mod sdata;
 mod s_c19;
 mod s_c20;
 mod s_smoke;
@@ -86,6 +89,8 @@ fn main() {
         "C14" => s_c14::run(&mut em, thorough, seed),
         "C15" => s_c15::run(&mut em, thorough, seed),
         "C16" => s_c16::run(&mut em, thorough, seed),
+        "C17" => s_c17::run(&mut em, thorough, seed),
+        "C18" => s_c18::run(&mut em, thorough, seed),
         "C19" => s_c19::run(&mut em, thorough, seed),
         "C20" => s_c20::run(&mut em, thorough, seed),
         "smoke" => s_smoke::run(&mut em),
